@@ -1135,16 +1135,36 @@ def case_copies(mon, seedval):
         ys = [rng.uniform(-3, 3) for _ in xs]
         i = Interpolation(list(xs), list(ys))
         c = Interpolation(i)
-        v0 = (c(1.5), c.derivative(1.5), len(c), c.get_tolerance())
+        def look(o, q):
+            # a copy that lost its data raises: that is an observation too
+            try:
+                return (o(q), o.derivative(q), len(o), o.get_tolerance(),
+                        str(o))
+            except Exception as ex:
+                return ("raised", repr(ex))
+        v0 = look(c, 1.5)
         i.set([5.0, 6.0, 7.0], [1.0, 4.0, 9.0])
         i.set_tolerance(1e-3)
-        ok1 = (c(1.5), c.derivative(1.5), len(c), c.get_tolerance()) == v0
-        w0 = (i(5.5), len(i), i.get_tolerance())
+        v1 = look(c, 1.5)
+        ok1 = v1 == v0
+        w0 = look(i, 5.5)
         c.set([0.0, 1.0], [0.0, 1.0])
         c.set_tolerance(1e-2)
-        ok2 = (i(5.5), len(i), i.get_tolerance()) == w0
+        w1 = look(i, 5.5)
+        ok2 = w1 == w0
         mon.check("copies-independent", ok1 and ok2,
-                  {"type": "Interpolation", "x": xs, "y": ys})
+                  {"type": "Interpolation", "x": xs, "y": ys,
+                   "copy_before_and_after_source.set": [repr(v0), repr(v1)],
+                   "source_before_and_after_copy.set": [repr(w0), repr(w1)]})
+        # the same through set(<Interpolation>) on an existing object
+        c2 = Interpolation([0.0, 1.0, 2.0], [1.0, 0.0, 1.0])
+        c2.set(i)
+        w0 = look(c2, 5.5)
+        i.set([0.0, 2.0, 4.0], [3.0, -1.0, 2.0])
+        w1 = look(c2, 5.5)
+        mon.check("copies-independent", w1 == w0,
+                  {"type": "Interpolation.set(Interpolation)",
+                   "copy_before_and_after_source.set": [repr(w0), repr(w1)]})
         # the source lists handed to the constructor stay the caller's own
         lx, ly = list(xs), list(ys)
         i2 = Interpolation(lx, ly)
